@@ -62,7 +62,7 @@ MANIFEST_ENTRY = {
 }
 
 GRACES = [0, 3600000, 10 ** 12]
-REAL_SPELLINGS = ["abs", "rel", "dot", "trail", "dslash", "symlink", "d", "da", "dat", "data", "m", "me", "metadata", "datax", "t/data"]
+REAL_SPELLINGS = ["abs", "rel", "dot", "trail", "dslash", "symlink", "unicode", "d", "da", "dat", "data", "m", "me", "metadata", "datax", "t/data"]
 S3_SPELLINGS = [("", "data"), ("", "d"), ("", "da"), ("", "metadata"), ("", "m"), ("", "/data"), ("", "data/"), ("data", "t"), ("d", "ata"),
                 ("wh", "data"), ("wh/", "/data/"), ("data", ""), ("", "logs/data"), ("", "datax"), ("metadata", "manifests"), ("", "tbl")]
 SIM_SPELLINGS = ["sim:/data", "sim:/metadata", "sim:/", "sim:", "sim:/data/", "sim:data/", "sim:/d", "sim:s3-bucket-prefix/data"]
@@ -103,6 +103,8 @@ def locate(base: str, spelling: str) -> Tuple[str, str, Optional[str], Optional[
         return os.path.join(base, "tbl"), os.path.join(base, "tbl"), None, None
     if spelling == "abs":
         return os.path.join(base, "tbl"), os.path.join(base, "tbl"), None, None
+    if spelling == "unicode":
+        return os.path.join(base, "t\u00e9 \u00fc b"), os.path.join(base, "t\u00e9 \u00fc b"), None, None
     if spelling == "trail":
         return os.path.join(base, "tbl") + "/", os.path.join(base, "tbl"), None, None
     if spelling == "dslash":
